@@ -776,4 +776,67 @@ func c13EntryFacts(e *ext) {
 	fmt.Fprintf(&e.out, "def updateChecks : List String := %s\n", c13StrList(updPlain))
 	fmt.Fprintf(&e.out, "def updateGatedChecks : List String := %s\n", c13StrList(updGated))
 	fmt.Fprintf(&e.out, "def alwaysChecks : List String := %s\n", c13StrList(always))
+	c13PodRequestFacts(e, vd)
+}
+
+// c13PodRequestFacts (ext6): how the two resource validators read "the pod's request": through which helper of
+// pkg/util, which k8s helper that one calls, and which fields of the options literal it sets (none: the SPEC is read;
+// UseStatusResources would make it max(spec, status) / the status alone).
+func c13PodRequestFacts(e *ext, vd string) {
+	var readers []string
+	for _, fn := range []string{"validateRequiredQoSClass", "validateResources"} {
+		fd := e.funcDecl(vd, "", fn)
+		if fd == nil || fd.Body == nil {
+			e.fail(fn + " not found")
+			continue
+		}
+		ast.Inspect(fd.Body, func(n ast.Node) bool {
+			if c, ok := n.(*ast.CallExpr); ok {
+				if se, ok := c.Fun.(*ast.SelectorExpr); ok {
+					if x, ok := se.X.(*ast.Ident); ok && x.Name == "util" {
+						readers = append(readers, fn+":"+se.Sel.Name)
+					}
+				}
+			}
+			return true
+		})
+	}
+	fmt.Fprintf(&e.out, "def requestReaders : List String := %s\n", c13StrList(readers))
+	callee, opts := "?", []string{"?"}
+	if fd := e.funcDecl("pkg/util", "", "GetPodRequest"); fd == nil || fd.Body == nil {
+		e.fail("util.GetPodRequest not found")
+	} else {
+		n := 0
+		ast.Inspect(fd.Body, func(x ast.Node) bool {
+			c, ok := x.(*ast.CallExpr)
+			if !ok || len(c.Args) != 2 {
+				return true
+			}
+			se, ok := c.Fun.(*ast.SelectorExpr)
+			if !ok || !strings.HasPrefix(se.Sel.Name, "Pod") {
+				return true
+			}
+			n++
+			callee = se.Sel.Name
+			if cl, ok := c.Args[1].(*ast.CompositeLit); ok {
+				opts = []string{}
+				for _, el := range cl.Elts {
+					if kv, ok := el.(*ast.KeyValueExpr); ok {
+						if v, ok := kv.Value.(*ast.Ident); ok && v.Name == "false" {
+							continue // the zero value written out: not an option that is set
+						}
+						opts = append(opts, c13Name(kv.Key))
+					} else {
+						opts = append(opts, "?")
+					}
+				}
+			}
+			return true
+		})
+		if n != 1 {
+			callee, opts = "?", []string{"?"}
+		}
+	}
+	fmt.Fprintf(&e.out, "def podRequestHelper : String := %s\n", leanStr(callee))
+	fmt.Fprintf(&e.out, "def podRequestOptions : List String := %s\n", c13StrList(opts))
 }
